@@ -87,6 +87,8 @@ def mworld (m : Mach) (fuel : Nat) : World M MV where
     | .pair a b => pure [a, b]
     | _ => throw "TypeError"
   unstar _ := throw "TypeError"
+  format _ := throw "TypeError"
+  concat _ := throw "TypeError"
   other _ := throw "Unsupported"
   throw cls := throw cls
   rethrow := throw "reraise"
